@@ -56,6 +56,11 @@ def eval_case(case: dict) -> dict:
     """Realise, build through the public surface, judge with the model-free oracle, then observe the
     Builder's internals. Picklable result; never raises (an unexpected exception becomes `infra`)."""
     out: dict = {"case": case}
+    if case.get("_selftest_crash"):
+        import os
+        import signal
+
+        os.kill(os.getpid(), signal.SIGSEGV)  # self-test of the isolation only (tools/mut_c04.py --crash-selftest)
     try:
         core.use_repo_on_path()
         from harness import lib_buildalg as L
@@ -357,10 +362,12 @@ def _candidate(table: dict, key: str, size: int, case: dict, what: str, keep: in
 
 
 def _isolated(fn, case: dict) -> dict:
-    """Evaluate one case in a fresh process that has built nothing before."""
+    """Evaluate one case in a fresh process that has built nothing before (a dying process is a result)."""
+    from concurrent.futures import ProcessPoolExecutor
+
     try:
-        with mp.get_context("fork").Pool(1, maxtasksperchild=1) as pool:
-            return pool.apply(fn, (case,))
+        with ProcessPoolExecutor(max_workers=1, mp_context=mp.get_context("fork")) as ex:
+            return ex.submit(fn, case).result()
     except Exception as e:  # noqa: BLE001
         return {"infra_error": f"{type(e).__name__}: {e}"}
 
@@ -492,26 +499,60 @@ def variant_cases(ck: core.Check, results: list[dict]) -> list[dict]:
     return out
 
 
+def _died(case: dict, why: str) -> dict:
+    r = {"case": case, "infra_error": why, "oracle": [], "builds": 0, "history_dependent": None}
+    return r
+
+
+def _robust_map(ck: core.Check, fn, cases: list[dict], chunksize: int) -> list[dict]:
+    """`fn` over `cases` in forked worker processes. A worker that DIES (native crash inside onnx /
+    onnxruntime, os._exit, OOM kill) must never take the run down or hang it: the executor reports the
+    broken pool, the cases are then re-run chunk by chunk in fresh single-use processes and - inside a
+    chunk that dies again - one by one; the case that kills its process becomes a per-case `infra_error`
+    result (reported as one `broken` item), every other case is evaluated normally."""
+    from concurrent.futures import ProcessPoolExecutor
+    from concurrent.futures.process import BrokenProcessPool
+
+    ctx = mp.get_context("fork")
+    try:
+        with ProcessPoolExecutor(max_workers=_WORKERS, mp_context=ctx) as ex:
+            return list(ex.map(fn, cases, chunksize=chunksize))
+    except BrokenProcessPool:
+        ck.notes.append("a worker process died; cases re-run in isolated chunks")
+    except Exception as e:  # noqa: BLE001
+        ck.notes.append(f"worker pool failed ({type(e).__name__}: {e}); cases re-run in isolated chunks")
+
+    def run_chunk(chunk):
+        try:
+            with ProcessPoolExecutor(max_workers=1, mp_context=ctx) as ex:
+                return list(ex.map(fn, chunk, chunksize=len(chunk)))
+        except Exception:  # noqa: BLE001
+            return None
+
+    chunks = [cases[i:i + 64] for i in range(0, len(cases), 64)]
+    out: list[dict] = []
+    from concurrent.futures import ThreadPoolExecutor
+
+    with ThreadPoolExecutor(max_workers=_WORKERS) as tp:
+        chunk_results = list(tp.map(run_chunk, chunks))
+    for chunk, res in zip(chunks, chunk_results):
+        if res is not None:
+            out.extend(res)
+            continue
+        for c in chunk:
+            one = run_chunk([c])
+            out.append(one[0] if one else _died(c, "the worker process evaluating this case died (native crash / exit)"))
+    return out
+
+
 def run_cases(ck: core.Check, cases: list[dict]) -> list[dict]:
     if len(cases) < 200:
-        return [eval_case(c) for c in cases]
-    try:
-        with mp.get_context("fork").Pool(_WORKERS) as pool:
-            return pool.map(eval_case, cases, chunksize=max(1, len(cases) // 240))
-    except Exception as e:  # noqa: BLE001 - a dying worker: fall back to in-process evaluation
-        ck.notes.append(f"worker pool failed ({type(e).__name__}: {e}); evaluated in-process")
-        return [eval_case(c) for c in cases]
+        return _robust_map(ck, eval_case, cases, max(1, len(cases) // 24))
+    return _robust_map(ck, eval_case, cases, max(1, len(cases) // 240))
 
 
 def run_history_cases(ck: core.Check, cases: list[dict]) -> list[dict]:
-    if len(cases) < 100:
-        return [eval_history(c) for c in cases]
-    try:
-        with mp.get_context("fork").Pool(_WORKERS) as pool:
-            return pool.map(eval_history, cases, chunksize=max(1, len(cases) // 120))
-    except Exception as e:  # noqa: BLE001
-        ck.notes.append(f"worker pool failed ({type(e).__name__}: {e}); histories evaluated in-process")
-        return [eval_history(c) for c in cases]
+    return _robust_map(ck, eval_history, cases, max(1, len(cases) // 120))
 
 
 def run(ck: core.Check, prove: bool = True):
@@ -718,6 +759,14 @@ def run(ck: core.Check, prove: bool = True):
                             mismatch("bridge: build_valid_mainClean instance (main-clean build not accepted by validG)", ap, None, None)
                         if m.get("leak_free") and not m["main_clean"]:
                             stats["leak_free_but_not_main_clean"] = stats.get("leak_free_but_not_main_clean", 0) + 1
+                    # the instance of build_valid_lexical_checked: WFb, lexicalB (the program alone), build ok ==> validG
+                    if m.get("lexical") is not None:
+                        stats["lexical_checked"] = stats.get("lexical_checked", 0) + 1
+                        stats["lexical"] = stats.get("lexical", 0) + int(bool(m["lexical"]))
+                        if m.get("wf") and m["lexical"] and not m.get("bridge_valid"):
+                            mismatch("bridge: build_valid_lexical instance (lexical program built but not accepted by validG)", ap, None, None)
+                        if m.get("leak_free") and not m["lexical"]:
+                            stats["leak_free_but_not_lexical"] = stats.get("leak_free_but_not_lexical", 0) + 1
                     if m.get("bridge_valid") and not m.get("leak_free"):
                         mismatch("bridge: accepted emission is not leak-free", ap, None, None)
                     if bool(m.get("bridge_valid")) != bool(m.get("struct_ok")):
